@@ -146,6 +146,27 @@ def emit_uvl(m, nm, ch):
     return break_uvl(text, out, ch.get('broken', 'none'))
 
 
+def first_outside_quotes(text, ch):
+    quote = ''
+    for i, c in enumerate(text):
+        if quote:
+            if c == quote:
+                quote = ''
+        elif c in '"\'':
+            quote = c
+        elif c == '/' and text[i:i + 2] == '//':      # comment: skip to the end of the line
+            j = text.find('\n', i)
+            return first_outside_quotes_from(text, ch, j) if j >= 0 else -1
+        elif c == ch:
+            return i
+    return -1
+
+
+def first_outside_quotes_from(text, ch, start):
+    r = first_outside_quotes(text[start:], ch)
+    return -1 if r < 0 else start + r
+
+
 def break_uvl(text, lines, how):
     if how == 'none':
         return text
@@ -158,14 +179,15 @@ def break_uvl(text, lines, how):
                 ls[i] = ' ' + ln.lstrip('\t')      # one space: matches no enclosing indentation level
                 return '\n'.join(ls)
         return 'features\n\t\tx\n\ty\n'
-    if how == 'bracket':          # an opening bracket is never closed
-        if '{' in text:
-            return text.replace('}', '', 1)
-        if '[' in text and ']' in text:
-            return text.replace(']', '', 1)
-        if ')' in text:
-            return text.replace(')', '', 1)
-        return text.rstrip('\n') + ' {abstract\n'
+    if how == 'bracket':          # an opening bracket is never closed (brackets inside quoted text do not count)
+        for closer in '}])':
+            i = first_outside_quotes(text, closer)
+            if i >= 0:
+                return text[:i] + text[i + 1:]
+        ls = text.rstrip('\n').split('\n')
+        k = next(i for i, ln in enumerate(ls) if ln.strip() == 'features') + 1
+        ls[k] = ls[k] + ' {abstract'      # an attribute block that is never closed, on the root feature
+        return '\n'.join(ls) + '\n'
     if how == 'badchar':          # a character that is no UVL token at all, in front of a feature name
         ls = text.split('\n')
         for i, ln in enumerate(ls):
